@@ -511,7 +511,7 @@ func strp(s string) *string { return &s }
 func genJob(t *rapid.T, name string) jobSpec {
 	j := jobSpec{Name: name}
 	j.Scheme = rapid.SampledFrom([]string{"", "http", "https"}).Draw(t, "scheme")
-	j.Path = rapid.SampledFrom([]string{"", "/metrics", "/m/x", "/probe"}).Draw(t, "path")
+	j.Path = rapid.SampledFrom([]string{"", "/metrics", "/m/x", "/probe", "/pool%2Fnode-1/metrics", "/a%252Fb/metrics", "/100%"}).Draw(t, "path")
 	np := rapid.IntRange(0, 2).Draw(t, "nParams")
 	for i := 0; i < np; i++ {
 		if j.Params == nil {
